@@ -90,6 +90,10 @@ pub enum Op {
     /// variant amt; a second, different invoice for a hash that still has a live one is refused,
     /// and so is one beyond the invoice table limit
     Issue { h: u8, amt: u8 },
+    /// macro: bookkeeping that has gone stale, then refusals: an issued invoice and an approved
+    /// one for hash h, more than a day later (no heartbeat in between) a live issued invoice for
+    /// another hash, a different invoice for that same hash (refused), and a re-approval
+    Stale { h: u8 },
 }
 
 /// the primitive requests a macro op stands for (None: the op is primitive)
@@ -105,6 +109,14 @@ pub fn expand_macro(op: &Op) -> Option<Vec<Op>> {
                 Op::HRevoke { ch: a, d: 0 },
             ])
         }
+        Op::Stale { h } => Some(vec![
+            Op::Issue { h: *h, amt: 0 },
+            Op::Approve { h: *h, amt: 0, keysend: false },
+            Op::AdvanceTime { secs: 100_000 },
+            Op::Issue { h: h ^ 1, amt: 0 },
+            Op::Issue { h: h ^ 1, amt: 1 },
+            Op::Approve { h: h ^ 1, amt: 2, keysend: true },
+        ]),
         Op::FundOpen { sign } => Some(vec![Op::Fund { kind: 0 }, Op::Fund { kind: 5 }, Op::Fund { kind: 1 }, Op::Fund { kind: 2 + *sign % 3 }]),
         _ => None,
     }
@@ -158,6 +170,7 @@ pub fn op_strat(refusable: bool) -> BoxedStrategy<Op> {
         2 => (0u8..6).prop_map(|kind| Op::Fund { kind }),
         3 => (0u8..3).prop_map(|sign| Op::FundOpen { sign }),
         3 => (0u8..4, 0u8..2).prop_map(|(h, amt)| Op::Issue { h, amt }),
+        1 => (0u8..4).prop_map(|h| Op::Stale { h }),
     ]
     .boxed()
 }
@@ -814,7 +827,7 @@ impl Machine {
                 self.w.clock.set(t);
                 vec![Self::skip("advance-time")]
             }
-            Op::CrossPay { .. } | Op::FundOpen { .. } => unreachable!("macro op expanded above"),
+            Op::CrossPay { .. } | Op::FundOpen { .. } | Op::Stale { .. } => unreachable!("macro op expanded above"),
             Op::Restart => {
                 if self.w.backup.is_some() {
                     // a restart would drop the composite persister: not modelled in backup mode
@@ -900,7 +913,15 @@ pub fn observe(node: &Arc<Node>) -> Snap {
     let tracker = {
         let t = node.get_tracker();
         let e: vls_persist::model::ChainTrackerEntry = (&*t).into();
-        serde_json::to_value(&e).unwrap()
+        let mut v = serde_json::to_value(&e).unwrap();
+        // read directly as well: the entry is produced by the same conversion the store uses
+        if let Some(o) = v.as_object_mut() {
+            o.insert("direct_height".into(), json!(t.height()));
+            o.insert("direct_tip".into(), json!(t.tip().0.block_hash().to_string()));
+            o.insert("direct_tip_filter_header".into(), json!(t.tip().1.to_string()));
+            o.insert("direct_headers".into(), json!(t.headers.iter().map(|h| format!("{}/{}", h.0.block_hash(), h.1)).collect::<Vec<_>>()));
+        }
+        v
     };
     Snap { channels, node: node_v, tracker }
 }
